@@ -4,10 +4,10 @@ cd /verif
 git -C /repo status --porcelain | grep -q . && { echo "/repo not clean"; exit 2; }
 for id in $(ls seeded | grep -v MATRIX); do
   [ -f seeded/$id/patch.diff ] || continue
-  [ -n "$ONLY" ] && ! echo $id | grep -qE "$ONLY" && continue
+  [ -n "$ONLY" ] && ! echo $id | grep -qE -e "$ONLY" && continue
   prop=${id%-*}
   git -C /repo apply /verif/seeded/$id/patch.diff || { echo "$id: patch does not apply"; continue; }
-  out=$(python3-vt -m pvc.check $prop --evidence /tmp/official_ev.json 2>&1 | grep -E "^pvc |VIOLATION|UNDECIDED|UNSUPPORTED|CHECKER-ERROR" | cut -c1-220)
+  out=$(python3-vt -m pvc.check $prop --evidence /tmp/official_ev.json 2>&1 | grep -E "^pvc |VIOLATION|UNDECIDED|UNSUPPORTED|CHECKER-ERROR" | cut -c1-420)
   git -C /repo checkout -- .
   code=$(echo "$out" | grep -E "^pvc " | sed 's/.*exit=\([0-9]\).*/\1/')
   nv=$(echo "$out" | grep -c VIOLATION)
